@@ -49,6 +49,13 @@ Judge(B) ==
     [] B.op = "splitflatten" ->
          Fails(<< <<"P:C09:result-wf", ResultWF(B.res, n)>>,
                   <<"P:C09:split-flatten-id", NoForeign(B.res.root) => (CR(B.res) = C0(B) /\ B.eq = 1)>> >>)
+    [] B.op = "splitswizzle" ->
+         \* split rank d+1 uniformly (X -> X.1, X.0), exchange the two parts, and back: points move like in any swizzle of the tiled tensor
+         LET TP(pt) == SubSeq(pt, 1, B.d) \o << <<(pt[B.d + 1][1] \div B.step) * B.step>>, pt[B.d + 1]>> \o SubSeq(pt, B.d + 2, Len(pt))
+             C1 == {<<TP(x[1]), x[2]>> : x \in C0(B)}
+         IN Fails(<< <<"P:C09:result-wf", ResultWF(B.res, n + 1) /\ ResultWF(B.res2, n + 1) /\ B.active_ok = 1>>,
+                     <<"P:C09:swizzle-image", NoForeign(B.res.root) => CR(B.res) = SwizzleC(C1, SwapGuide(n + 1, B.d))>>,
+                     <<"P:C09:swizzle-inverse", NoForeign(B.res2.root) => (CR(B.res2) = C1 /\ B.eq = 1)>> >>)
     [] B.op = "updcoords" ->
          Fails(<< <<"P:C09:result-wf", ResultWF(B.res, n)>>,
                   <<"P:C09:update-below-all", NoForeign(B.res.root) => CR(B.res) = UpdCoordsC(C0(B), B.d, B.fn)>> >>)
